@@ -5,12 +5,17 @@
    colour-type / bit-depth pairs come out; an image is decoded only if its decoded size is below
    1032 x (compressed size + 1) bytes and its dimensions are non-zero, and the unfiltered data is no
    longer than that size (so requests are bounded by a fixed multiple of the bytes present).
+   THE WHOLE PARSER: PngData::from_slice never panics, for every byte string shorter than 2^54 bytes, every
+   policy and error-fixing flag (C05_from_slice_no_panic): chunk walker, header, the saturating size
+   arithmetic (raw_data_size = min(specification's size, usize::MAX), C05_raw_data_size_saturates), the
+   1032x rule, the scan-line iteration over the inflated stream and the per-line reconstruction
+   (C05_unfilter_no_panic, C05_png_image_new_no_panic) - assuming only that the decompressor returns.
    PARTIAL: absence of Panic in the reductions / filters for every accepted image (needs the layout
-   theorems of C18 composed with every reduction) and the peak of simultaneously live buffers are not
+   theorems of C18 composed with every reduction; proved for de-interlacing, C18) and the peak of simultaneously live buffers are not
    proved; they are decided per run by isolated worker processes with a counting allocator and an
    address-space limit over a mutation corpus, in debug and release profiles. *)
-From OxiVerif Require Import Base.Common Model.Types Model.Options Model.Headers Model.PngData Model.Optimize
-  Proofs.RobustProofs.
+From OxiVerif Require Import Base.Common Spec.Adam7 Spec.Sem Model.Types Model.Options Model.Headers Model.ScanLines Model.Filters Model.PngData Model.Optimize
+  Proofs.Bridge Proofs.RobustProofs Proofs.NoPanicParse.
 
 Theorem C05_chunk_walker_total : forall o fuel rest st p, bytes_ok rest ->
   (length rest / 12 < fuel)%nat -> from_slice_loop fuel o rest st <> Panic p.
@@ -36,3 +41,34 @@ Theorem C05_decoded_size_bounded : forall e hd compressed img,
   width hd <> 0 /\ height hd <> 0 /\ raw_data_size hd < 1032 * (lenZ compressed + 1) /\ lenZ (data img) <= raw_data_size hd + 0 * 0.
 Proof. exact png_image_new_size_bound. Qed.
 Print Assumptions C05_decoded_size_bounded.
+
+(* the saturating size arithmetic of IhdrData::raw_data_size, exactly: the specification's size capped at usize::MAX *)
+Theorem C05_raw_data_size_saturates : forall hd : ihdr, 1 <= width hd -> 1 <= height hd -> 1 <= bpp hd ->
+  raw_data_size hd = Z.min (spec_raw_size (width hd) (height hd) (bpp hd) (interlaced hd) true) usize_max.
+Proof. exact raw_data_size_min. Qed.
+Print Assumptions C05_raw_data_size_saturates.
+
+(* un-filtering a stream of the size the header implies ends in a value or an error, whatever the bytes *)
+Theorem C05_unfilter_no_panic : forall (hd : ihdr) (stream : list Z) p,
+  1 <= width hd -> 1 <= height hd -> 1 <= bpp hd ->
+  depth_legal (spec_color_of (ctype hd)) (depth hd) = true ->
+  lenZ stream = spec_raw_size (width hd) (height hd) (bpp hd) (interlaced hd) true ->
+  unfilter_image {| hdr := hd; data := stream |} <> Panic p.
+Proof. exact unfilter_image_no_panic. Qed.
+Print Assumptions C05_unfilter_no_panic.
+
+Theorem C05_png_image_new_no_panic : forall e hd compressed p,
+  0 <= width hd -> 0 <= height hd -> 1 <= bpp hd -> depth_legal (spec_color_of (ctype hd)) (depth hd) = true ->
+  (forall x n q, z_inflate e x n <> Panic q) ->
+  lenZ compressed < usize_max / 1032 ->
+  png_image_new e hd compressed <> Panic p.
+Proof. exact png_image_new_no_panic. Qed.
+Print Assumptions C05_png_image_new_no_panic.
+
+(* every byte string: the parser entry point returns a PngData or an error *)
+Theorem C05_from_slice_no_panic : forall e o bytes p,
+  bytes_ok bytes -> lenZ bytes < usize_max / 1032 ->
+  (forall x n q, z_inflate e x n <> Panic q) ->
+  from_slice e bytes o <> Panic p.
+Proof. exact from_slice_no_panic. Qed.
+Print Assumptions C05_from_slice_no_panic.
